@@ -45,7 +45,7 @@ Definition balanced (b : block) : bool :=
 
 Fixpoint scoped (s : stmt) : bool :=
   match s with
-  | SIf _ _ _ _ b | SLoop _ _ _ _ _ b | SForeach _ _ _ b => balanced b && scoped_in b
+  | SIf _ _ _ _ b | SLoop _ _ _ _ _ _ b | SForeach _ _ _ b => balanced b && scoped_in b
   | SLoopUntil _ _ b _ _ cl => balanced b && scoped_in b && balanced cl && scoped_in cl
   | SEpr _ _ => false
   | _ => true
